@@ -27,7 +27,7 @@ PROPERTY = "C29"
 LEVEL = "exploration"
 BUDGET = {"quick": 160, "thorough": 6000}
 CHUNK = 1
-RUN_TIMEOUT_S = 600
+RUN_TIMEOUT_S = 1500
 MAX_DISCARD_FRACTION = 0.4
 PRELOAD = ["vtk", "vtk.util.numpy_support"]
 RULE = (
